@@ -122,6 +122,8 @@ type FnSpec struct {
 	Lean    string // Lean name of the generated definition
 	Doc     string
 	Binders string            // extra Lean binders, placed first, e.g. "(cb : Cb.Callback)"
+	// SkipParams: Go parameters of a type outside the subset that Binders / Vals stand in for
+	SkipParams []string
 	// Results overrides the translator types of the Go results (e.g. "unit" for a pointer to a struct
 	// whose fields are modelled as State)
 	Results []string
@@ -2018,8 +2020,19 @@ func GenBody(spec *FnSpec) string {
 		binders = append(binders, fmt.Sprintf("(%s : %s)", s.Lean, leanTy(s.Ty)))
 	}
 	sigBad := ""
+	skip := map[string]bool{}
+	for _, n := range spec.SkipParams {
+		skip[n] = true
+	}
 	for _, f := range fd.Type.Params.List {
 		ty := goTypeOf(f.Type)
+		allSkipped := len(f.Names) > 0
+		for _, nm := range f.Names {
+			allSkipped = allSkipped && skip[nm.Name]
+		}
+		if allSkipped {
+			continue
+		}
 		if _, variadic := f.Type.(*ast.Ellipsis); variadic || ty == "" {
 			sigBad = t.unsupported("parameter_type")
 			continue
